@@ -553,6 +553,12 @@ AnyP::Uri::parse(const HttpRequestMethod& method, const SBuf &rawUrl)
         if (!urlAppendDomain(foundHost))
             return false;
 
+        // Uri::host() silently truncates longer names, changing the URI
+        if (strlen(foundHost) >= SQUIDHOSTNAMELEN) {
+            debugs(23, 3, "Host name is too long in URL '" << rawUrl << "'");
+            return false;
+        }
+
         /* remove trailing dots from hostnames */
         while ((l = strlen(foundHost)) > 0 && foundHost[--l] == '.')
             foundHost[l] = '\0';
